@@ -13,6 +13,8 @@
 //!         | b<k>:<j>     client k writes j further complete requests in ONE write (pipelined)
 //!         | l<k>         the gate of the handler running for client k opens (200)
 //!         | p<k> | u<k>  client k sends half a request head / a head and part of the body
+//!         | x            a client connects and sends the head of an upload with Expect: 100-continue (gated handler)
+//!         | y<k>         the handler of upload k answers "get the body first"; client k then sends the body
 //! Observation per command: `a,g,h,t,d,x,s,l` =
 //!   admitted so far, tokens held by handlers (acc) / -, handlers entered now, handler entries so
 //!   far, complete responses read by clients, connections closed by the server on its own,
@@ -215,6 +217,9 @@ enum GateCmd {
     Err500,
     Panic,
     Drop,
+    /// answer "get the body first" (the server then sends 100 Continue, receives the body into a file and runs
+    /// the handler again)
+    GetBody,
 }
 struct Gates {
     cmds: Mutex<HashMap<usize, GateCmd>>,
@@ -262,7 +267,9 @@ fn reader_thread(mut s: TcpStream, sh: Arc<ClientShared>) {
                     break;
                 }
                 buf.drain(..p + 4 + cl);
-                sh.responses.fetch_add(1, SeqCst);
+                if !head.starts_with("http/1.1 100") {
+                    sh.responses.fetch_add(1, SeqCst); // interim 100 Continue answers are not responses
+                }
             }
         }
     });
@@ -281,6 +288,10 @@ fn set_linger0(s: &TcpStream) {
 fn big_req_bytes(id: usize, seq: usize) -> Vec<u8> {
     format!("POST /g/{id}/{seq} HTTP/1.1\r\ncontent-length: 100000\r\n\r\n").into_bytes()
 }
+/// an upload that waits for 100 Continue: the head only
+fn expect_req_bytes(id: usize, seq: usize) -> Vec<u8> {
+    format!("POST /g/{id}/{seq}/upload HTTP/1.1\r\nexpect: 100-continue\r\ncontent-length: 100000\r\n\r\n").into_bytes()
+}
 fn req_bytes(id: usize, seq: usize) -> Vec<u8> {
     format!("GET /g/{id}/{seq} HTTP/1.1\r\n\r\n").into_bytes()
 }
@@ -293,6 +304,10 @@ pub fn srv_case(toks: &[String]) -> (String, bool) {
     let handler = move |req: Request| -> Response {
         let path = req.url().path().to_string();
         let id: usize = path.split('/').nth(2).and_then(|x| x.parse().ok()).unwrap_or(9999);
+        if path.ends_with("/upload") && !req.body.is_pending() && req.body.len().unwrap_or(0) > 0 {
+            // the second run of an upload's handler, with the body received: the answer (not gated, not counted)
+            return Response::text(200, "ok");
+        }
         {
             let mut e = g2.entered.lock().unwrap();
             e.push(id);
@@ -325,12 +340,15 @@ pub fn srv_case(toks: &[String]) -> (String, bool) {
             GateCmd::Err500 => Response::text(500, "err"),
             GateCmd::Panic => panic!("handler panic on command"),
             GateCmd::Drop => Response::drop_connection(),
+            GateCmd::GetBody => Response::get_body_and_reprocess(1_000_000),
         }
     };
     let top = Permit::new();
     let sub = top.new_sub();
+    let cache = temp_dir::TempDir::new().unwrap();
+    let cache_path = cache.path().to_path_buf();
     let (addr, mut stopped_rx) = executor
-        .block_on(async move { HttpServerBuilder::new().max_conns(n).permit(sub).spawn(handler).await })
+        .block_on(async move { HttpServerBuilder::new().max_conns(n).receive_large_bodies(&cache_path).permit(sub).spawn(handler).await })
         .unwrap();
     let mut clients: Vec<Client> = Vec::new();
     let mut pred = Pred::new(n, true);
@@ -397,7 +415,19 @@ pub fn srv_case(toks: &[String]) -> (String, bool) {
     };
     for c in &toks[2..] {
         let c = c.as_str();
-        if c == "c" || c == "C" {
+        if let Some(k) = c.strip_prefix('y') {
+            // the gated handler of the Expect upload k answers "get the body first"; the client then sends the body
+            let k: usize = k.parse().unwrap();
+            release(k, GateCmd::GetBody);
+            pred.release(k);
+            if let Some(s) = &clients[k].stream {
+                if let Ok(mut w) = s.try_clone() {
+                    std::thread::spawn(move || {
+                        let _ = w.write_all(&vec![b'u'; 100_000]);
+                    });
+                }
+            }
+        } else if c == "c" || c == "C" || c == "x" {
             // C: the connection's first request is an upload head (content-length above small_body_len, no body
             // byte follows): the handler sees a pending body and the server ends the connection with it unread
             let big = c == "C";
@@ -407,7 +437,7 @@ pub fn srv_case(toks: &[String]) -> (String, bool) {
             let refused = stream.is_none();
             if let Some(s) = &stream {
                 let _ = s.set_nodelay(true);
-                let _ = (&*s).write_all(&if big { big_req_bytes(id, 0) } else { req_bytes(id, 0) });
+                let _ = (&*s).write_all(&if c == "x" { expect_req_bytes(id, 0) } else if big { big_req_bytes(id, 0) } else { req_bytes(id, 0) });
                 reader_thread(s.try_clone().unwrap(), sh.clone());
             }
             clients.push(Client { stream, sh, seq: 1, partial: None, ended: false, frozen: 0, refused });
